@@ -49,8 +49,13 @@ def gen_case(ctx, i):
     two = bool(r.random() < 0.4) and model != "single"
     n_nodes = int(r.integers(2, 5))
     frames = []
-    for f in range(int(r.integers(1, 4))):
+    used = set()
+    for _k in range(int(r.integers(1, 5))):
         v = int(r.integers(0, 2)) if two else 0
+        f = int(r.integers(0, 3))  # frame indices may coincide across videos (consecutive labelled frames sharing an index)
+        if (v, f) in used:
+            continue
+        used.add((v, f))
         n_an = 1 if model == "single" else int(r.integers(1, 4))
         animals = []
         for a in range(n_an):
